@@ -178,6 +178,7 @@ func runExec(in, out string) {
 			continue
 		}
 		if len(toks) == 1 && toks[0] == "reset" {
+			resetConsensusParams() // every history starts from the compiled-in consensus parameters (wenv.go)
 			for _, x := range execs {
 				x.Reset()
 			}
